@@ -108,6 +108,59 @@ def body(c):
         if not r["ok"]:
             c.violation(dict(key, kind="wrong_results"), "C15: gated run returned wrong results", {})
         c.sample({"gate": {k: v for k, v in j.items() if k != "dir"}, "high_water": running, "bound": bound}, cap=4)
+    # 3b. histories of calls with different n_jobs in one process: ExecutorResize.tla (the reusable loky executor is resized between
+    #     the calls) model-checked, its histories replayed with gated tasks on the three backends
+    def er_cfg(name, gen=False, **k):
+        consts = dict(MaxW=3, NT=3, Calls=3, Timeouts=1, StopSurplus=True, WaitShrunk=True, Gen=gen); consts.update(k)
+        p = os.path.join(common.VERIF, "out", "cfg", "ER_%s.cfg" % name)
+        if gen: tlc.write_cfg(p, constants=consts, init="Init", next="Next", constraint="Emit")
+        else: tlc.write_cfg(p, constants=consts, spec="Spec", invariants=k.pop("_inv", None) or ["Bound", "SizeAtWork", "NoLostSentinel"], properties=["Ends"], view="View")
+        return p
+    c.model_check("ExecutorResize[3 workers, 3 calls, 1 idle timeout]", "ExecutorResize", er_cfg("mc"), workers=8, timeout=600)
+    if not c.quick: c.model_check("ExecutorResize[4 workers, 4 calls]", "ExecutorResize", er_cfg("mc4", MaxW=4, Calls=4, NT=4, Timeouts=2), workers=16, timeout=900)
+    p1 = os.path.join(common.VERIF, "out", "cfg", "ER_nostop.cfg")
+    tlc.write_cfg(p1, constants=dict(MaxW=3, NT=3, Calls=3, Timeouts=1, StopSurplus=False, WaitShrunk=True, Gen=False), spec="Spec", invariants=["Bound"], view="View")
+    r1 = c.model_check("ExecutorResize[surplus workers not stopped]", "ExecutorResize", p1, must_hold=False, workers=4, timeout=600)
+    if r1.ok: raise tlc.TLCError("ExecutorResize lost its sensitivity: a shrink that does not stop the surplus workers must break Bound")
+    p2 = os.path.join(common.VERIF, "out", "cfg", "ER_nowait.cfg")
+    tlc.write_cfg(p2, constants=dict(MaxW=3, NT=3, Calls=3, Timeouts=1, StopSurplus=True, WaitShrunk=False, Gen=False), spec="Spec", invariants=["SizeAtWork"], view="View")
+    r2 = c.model_check("ExecutorResize[no wait for the surplus workers]", "ExecutorResize", p2, must_hold=False, workers=4, timeout=600)
+    if r2.ok: raise tlc.TLCError("ExecutorResize lost its sensitivity: not waiting for the surplus workers must break SizeAtWork")
+    c.extra["resize_model_sensitivity"] = ["surplus workers not stopped -> %s" % (r1.violated,), "no wait for the surplus workers -> %s" % (r2.violated,)]
+    r = tlc.run("ExecutorResize", er_cfg("gen", gen=True, Timeouts=0, NT=1), workers=1, timeout=600); c.add_tlc("ExecutorResize-gen[histories]", r)
+    hists = sorted({tuple(h) for h in tlc.printed_json(r)})
+    c.extra["resize_histories"] = len(hists)
+    interesting = [h for h in hists if len(set(h)) >= 2]
+    if c.quick: interesting = [h for h in interesting if h in ((3, 1, 2), (1, 3, 1), (2, 3, 1), (3, 2, 3))]
+    sj = []
+    for backend in ("loky", "threading", "multiprocessing"):
+        for h in interesting:
+            if backend != "loky" and c.quick and h not in ((3, 1, 2), (1, 3, 1)): continue
+            sj.append({"mode": "gate_seq", "backend": backend, "history": list(h), "ntasks": 6, "settle": 1.0 if backend == "threading" else 1.5})
+    # the resize path proper: with inner_max_num_threads fixed the executor arguments do not depend on n_jobs
+    for h in ([(3, 2, 3), (2, 3, 2)] if c.quick else [h for h in interesting if 1 not in h] + [(4, 2, 3, 2), (2, 4, 3, 4)]):
+        sj.append({"mode": "gate_seq", "backend": "loky", "history": list(h), "ntasks": 6, "settle": 1.5, "inner_threads": 1})
+    sj.append({"mode": "gate_seq", "backend": "loky", "history": [3, 1, 2], "ntasks": 6, "settle": 1.5, "same_object": True})
+    for k, j in enumerate(sj): j["dir"] = os.path.join(base, "gs%d" % k)
+    with ThreadPoolExecutor(max_workers=6) as ex:
+        res = list(ex.map(lambda kj: run_worker(base, "gs%d" % kj[0], kj[1], timeout=600), enumerate(sj)))
+    for j, r in zip(sj, res):
+        c.evaluations += 1; c.nontrivial.add(("gate_seq", j["backend"], tuple(j["history"]), bool(j.get("same_object"))))
+        if "error" in r: raise RuntimeError("gate_seq worker: %s %s" % (j, r["error"]))
+        if j.get("inner_threads"):
+            c.extra["resize_path_taken"] = c.extra.get("resize_path_taken", 0) + sum(1 for a, b in zip(r["calls"], r["calls"][1:]) if a.get("executor") == b.get("executor"))
+        for k, cr in enumerate(r["calls"]):
+            # (not for the same-object variant: after a call with n_jobs=1 that object keeps its sequential fall-back, the module's
+            # executor is then the one of an earlier call)
+            if j["backend"] == "loky" and not j.get("same_object") and cr.get("processes") is not None and cr["n_jobs"] > 1 and cr["processes"] > cr["n_jobs"]:
+                c.violation({"kind": "worker_processes_after_history", "history": j["history"][:k + 1], "processes": cr["processes"], "inner_threads": j.get("inner_threads")},
+                            "C15: after the calls with n_jobs=%s the executor has %d worker processes for n_jobs=%d" % (j["history"][:k], cr["processes"], cr["n_jobs"]), {})
+            key = {"kind": "concurrency_after_history", "inner_threads": j.get("inner_threads"), "backend": j["backend"], "history": j["history"][:k + 1], "same_object": bool(j.get("same_object")), "running": cr["high_water"]}
+            if cr["high_water"] > cr["n_jobs"]:
+                c.violation(key, "C15: after the calls with n_jobs=%s, %d tasks run simultaneously in a call with n_jobs=%d on %s" % (j["history"][:k], cr["high_water"], cr["n_jobs"], j["backend"]), {})
+            if not cr["ok"]:
+                c.violation(dict(key, kind="wrong_results_after_history"), "C15: gated call %d of the history %s returned wrong results" % (k, j["history"]), {})
+        c.sample({"gate_seq": {k: v for k, v in j.items() if k != "dir"}, "calls": r["calls"]}, cap=3)
     # 4. nesting: no processes below level 0; level 1 on threads, deeper levels sequential
     nj = []
     inners = [{}, {"prefer": "processes"}, {"prefer": "threads"}, {"require": "sharedmem"}]
@@ -138,11 +191,12 @@ def body(c):
                                 "C15: nesting level %d uses %s with %d workers (must be sequential)" % (node["level"] + 1, node["backend"], node["eff"]), {})
         c.sample({"nest": {"outer": j["outer"], "spec": j["spec"]}, "level1": [{k: v for k, v in n.items() if k != "sub"} for n in r["out"]]}, cap=6)
     shutil.rmtree(base, ignore_errors=True)
-    c.traces_validated = len(gj) + len(nj)
+    c.traces_validated = len(gj) + len(nj) + len(sj)
     c.exhaustive = True
     c.rule = ("(a) every row of NJobs.tla's table: affinity mask size {1,2,3,all} x LOKY_MAX_CPU_COUNT {unset,1,2,3,64} x backend x n_jobs in [-2c, 2c] evaluated by the real "
               "cpu_count / effective_n_jobs under a real sched_setaffinity mask; (b) gated tasks on threading, loky, multiprocessing: tasks that start block until the "
-              "number of started tasks is stable, the high-water mark must not exceed the resolved n_jobs; (c) nested Parallel calls (depth 2-3, inner arguments "
+              "number of started tasks is stable, the high-water mark must not exceed the resolved n_jobs; (b2) histories of such calls with different n_jobs in one process "
+              "(generated from ExecutorResize.tla: the reused loky executor is resized, pools are rebuilt), the bound must hold in every call; (c) nested Parallel calls (depth 2-3, inner arguments "
               "default / prefer / require) inside loky, threading and multiprocessing workers: pids of nested tasks must be level-0 pids, level 1 threads, deeper sequential")
     c.assumptions += ["cgroup CPU quota of the sandbox does not bind (os.cpu_count() CPUs usable)", "quiescence = count of started tasks stable for 1-1.5 s"]
 
